@@ -93,7 +93,7 @@ CFG = {
     "stages": ["go:gen", "go:impl", "lean:judge"],
     "theorems": [T + n for n in ["C01_pointset", "C01_closed", "C01_empty_only_if_null", "C01_xor_defect_before_fix", "C01_pointset_natural", "C01_inclusion_exclusion_pointwise", "member_eq_memberNat",
                                  "construct_pointset", "boundsIntersection_pointset", "not_both_inside", "insideRing_rect", "inBox_of_inside", "inside_const", "edge_lemma", "member_const", "sample_cell_const", "slab_cell_free", "slabCell_sound",
-                                 "C01_certificate_sound", "C01_certificate_exact", "C01_certificate_coreSpec_case", "C01_inclusion_exclusion_cells", "slab_sound", "nearSeg_convex", "chain_pairwise", "split_at"] + TIE_THEOREMS],
+                                 "C01_certificate_sound", "C01_certificate_exact", "C01_certificate_coreSpec_case", "C01_inclusion_exclusion_cells", "slab_sound", "nearSeg_convex", "chain_pairwise", "split_at", "C01_library_within_judged", "withinCheck_none"] + TIE_THEOREMS],
     "level": "proof",
     "trusted_base": [
         "Lean 4.33.0 kernel; axioms of every theorem printed by #print axioms must be within {propext, Classical.choice, Quot.sound}",
@@ -105,7 +105,7 @@ CFG = {
     ],
     "assumptions": ["finite coordinates (no NaN/Inf); membership is the even-odd rule over all rings of all member polygons (what geom.pointInPolygonal implements)"],
     "rule": "integer-grid operand pairs (star-shaped / rectilinear / inscribed-convex / rectangular shells, 0-2 holes strictly inside, multi-polygons of 1-3 disjoint members incl. a member inside another's hole, boxes) in forced configuration classes "
-            "(overlapping, nested, disjoint-with-overlapping-boxes, box-disjoint, box-separated along exactly one axis, identical boxes) x 9 receiver/argument type pairs x 4 operations + area identities; multi-polygons with an empty member at a random position; a result ring of >128 (thorough >1024) vertices; concurrent lines (cc: the case recomputed by 8 goroutines while 8 others run the operations on unrelated operands; any answer that differs from the sequential one is judged); "
+            "(overlapping, nested, disjoint-with-overlapping-boxes, box-disjoint, box-separated along exactly one axis, identical boxes, every vertex of one operand in the solid part of the other without being a subset: surrounding a hole / bridging a notch) x 9 receiver/argument type pairs x 4 operations + area identities (operands compared with a snapshot after the Area calls and after the operations); the library's Point.Within asked about every result at up to 96 probe points (beside the edge midpoints of result and operands, ring corner centroids) and judged by Spec.withinAgrees at the probes with clear margin; multi-polygons with an empty member at a random position; a result ring of >128 (thorough >1024) vertices; concurrent lines (cc: the case recomputed by 8 goroutines while 8 others run the operations on unrelated operands; any answer that differs from the sequential one is judged); "
             "40% of the cases at coordinate scales 2^-20/2^-24/2^-30/2^+20 (dyadic: exact), multi-call histories on one line with operands overwritten in place, operands over one flat backing array and compared with a snapshot after each call, size-threshold cases (vertex/ring/member counts beyond 64/128/1024; lines of 1024..3000 vertices); distinct = distinct input line; non-trivial = verdict class not '-outside-quantifier' (invalid or non-general-position corpus cases, compared with the model only)",
     "trivial_class": r"outside-quantifier$",
     "pregen": pregen,
